@@ -39,7 +39,7 @@ func (c07Stream) Rule() string {
 	return "one fault per scenario - a panicking handler for each concurrently dispatched operation (bind, search, modify, add, delete, extended), for StartTLS, for the unbind route and for the default route, requests of every operation nothing is registered for (refused by gldap itself, with a logger at trace level), 512 handlers on eight connections panicking in the same instant, and for a bind on a TLS listener that requests but does not verify client certificates; a connection reset; a truncated frame followed by silence; a client that sends searches with large results and never reads, also one whose requests are served by the default route; descriptor exhaustion at accept (RLIMIT_NOFILE lowered in the worker); 48 connections whose read loops end on a malformed frame while a slow request of theirs is still being handled, with 48 new connections arriving at once; a client of a TLS listener that sends a truncated first record and stalls; a frame of 2^20 nested indefinite-length sequence headers (goroutine stack limit lowered to 32 MiB in the worker) - injected while two bystander connections issue requests continuously; oracle: the worker process survives, the bystanders keep receiving correct responses during and after the fault, and a new connection is accepted and served afterwards; non-trivial = every scenario, distinct by fault"
 }
 
-var c07Faults = []string{"unrouted", "panic-storm", "panic-bind", "panic-search", "panic-modify", "panic-add", "panic-delete", "panic-extended", "panic-starttls", "panic-unbind", "panic-default", "rst", "truncated", "notreading", "notreading-default", "panic-anycert", "fdexhaust", "deepnest", "latewriter", "tlsstall"}
+var c07Faults = []string{"panic-jsonlog", "unrouted", "panic-storm", "panic-bind", "panic-search", "panic-modify", "panic-add", "panic-delete", "panic-extended", "panic-starttls", "panic-unbind", "panic-default", "rst", "truncated", "notreading", "notreading-default", "panic-anycert", "fdexhaust", "deepnest", "latewriter", "tlsstall"}
 
 func (c07Stream) Generate(rng *rand.Rand, n int, thorough bool) []Case {
 	var cs []Case
@@ -167,6 +167,10 @@ func (c07Stream) Impl(c Case) string {
 		victimCfg = cliCfg
 	}
 	var sopts []gldap.Option
+	if fault == "panic-jsonlog" {
+		// the application logs in JSON; the handler panics with a typed-nil error, whose Error() method panics itself
+		sopts = append(sopts, gldap.WithLogger(hclog.New(&hclog.LoggerOptions{Level: hclog.Debug, Output: io.Discard, JSONFormat: true})))
+	}
 	if fault == "unrouted" {
 		debug.SetMaxStack(32 << 20) // (a runaway recursion ends quickly)
 		sopts = append(sopts, gldap.WithLogger(hclog.New(&hclog.LoggerOptions{Level: hclog.Trace, Output: io.Discard})))
@@ -258,6 +262,10 @@ func (c07Stream) Impl(c Case) string {
 			}
 			time.Sleep(50 * time.Millisecond)
 			frame = opFrame("bind", 1)
+		case "jsonlog":
+			r := Req{Kind: "bind", ID: 665, DN: victimDN, Pass: "p"} // (665: the typed-nil error among the panic values)
+			nd, _ := r.Node()
+			frame = nd.Ser()
 		case "anycert":
 			r := Req{Kind: "bind", ID: 666, DN: victimDN, Pass: "p"}
 			nd, _ := r.Node()
